@@ -80,6 +80,7 @@ def _build_classes():
              "wavelength": {"<element>|<charge>|<upper>|<lower>": nm},
              "cx": {"donor": name, "receiver": name, "receiver_charge": Z, "transition": [u, l],
                     "rates": [{"metastable": m, "spec": spec}, ...]  (order = order of the returned list)},
+             "cx_alt": optional second entry of the same shape (the line a model is switched to in a history),
              "pop": {"<m>|<element>|<charge>": spec}, "bes": {"<element>|<charge>": spec}, "stop": {"<element>|<charge>": spec},
              "beam_element": name, "bes_transition": [3, 2]}"""
 
@@ -87,7 +88,7 @@ def _build_classes():
             super().__init__()
             self.tables = tables
             self.events = []
-            self.cx_rates = []          # every list handed out by beam_cx_pec: [(metastable, rate), ...]
+            self.cx_rates = []          # every list handed out by beam_cx_pec: (table name "cx"|"cx_alt", [(metastable, rate), ...])
             self.pop_rates = {}         # (m, element, charge) -> [rate objects handed out]
             self.bes_rates = {}         # (element, charge) -> [rate objects handed out]
             self.stop_rates = {}
@@ -96,7 +97,7 @@ def _build_classes():
         # -- helpers ---------------------------------------------------------------------------
         def all_rates(self):
             out = []
-            for lst in self.cx_rates:
+            for _, lst in self.cx_rates:
                 out.extend(r for _, r in lst)
             for d in (self.pop_rates, self.bes_rates, self.stop_rates):
                 for lst in d.values():
@@ -120,15 +121,17 @@ def _build_classes():
             return float(self.tables["wavelength"].get(key, 123.456))
 
         def beam_cx_pec(self, donor_ion, receiver_ion, receiver_charge, transition):
-            cx = self.tables["cx"]
             req = (donor_ion.name, receiver_ion.name, int(receiver_charge), [transition[0], transition[1]])
             self.events.append(("beam_cx_pec",) + req[:3] + (tuple(req[3]),))
-            if req != (cx["donor"], cx["receiver"], int(cx["receiver_charge"]), list(cx["transition"])):
-                return [self._decoy(MockBeamCXPEC, 1, {"mode": "const", "c": DECOY_VALUE}, ("cx-decoy",) + req[:3])]
-            lst = [(int(r["metastable"]), MockBeamCXPEC(int(r["metastable"]), r["spec"], ("cx", int(r["metastable"]))))
-                   for r in cx["rates"]]
-            self.cx_rates.append(lst)
-            return [r for _, r in lst]
+            for name in ("cx", "cx_alt"):
+                cx = self.tables.get(name)
+                if cx is None or req != (cx["donor"], cx["receiver"], int(cx["receiver_charge"]), list(cx["transition"])):
+                    continue
+                lst = [(int(r["metastable"]), MockBeamCXPEC(int(r["metastable"]), r["spec"], (name, int(r["metastable"]))))
+                       for r in cx["rates"]]
+                self.cx_rates.append((name, lst))
+                return [r for _, r in lst]
+            return [self._decoy(MockBeamCXPEC, 1, {"mode": "const", "c": DECOY_VALUE}, ("cx-decoy",) + req[:3])]
 
         def beam_population_rate(self, beam_ion, metastable, plasma_ion, charge):
             self.events.append(("beam_population_rate", beam_ion.name, int(metastable), plasma_ion.name, int(charge)))
